@@ -131,12 +131,19 @@ def run(ctx):
     thorough = ctx.tier == 'thorough'
     ctx.level = 'other'
     ctx.explanation = (
-        'Hybrid. PROVED for all bags: best_hyp() returns the transcript at the first maximiser of vis_sc + lm_weight * lm_sc '
+        'Hybrid. PROVED for all inputs and for EVERY language model whose initial_h / log_probs / advance_h0 / eos_scores act item-wise and '
+        'deterministically (the LM is a family of uninterpreted functions): the beam loop of CTCPrefixLogRawNumpyDecoder.__call__ with an LM '
+        'keeps h_prev[p] = HSTATE(prefix p) (the state reached from the start state by reading the prefix), lm_preds[p] = the predictions of that '
+        'state, and Plm[p] = LMS(prefix p) = sum over the symbols of (score of the symbol in the state before it + insertion bonus) — whatever '
+        'route the search took (compute_Plm, update_lm_things and the loop invariant); at the return Plm[p] = LMS(prefix p) (+ the end-of-line '
+        'score of HSTATE(prefix p) when requested) and with return_h the state handed on is HSTATE of the arg-max of visual + scale * LM score.  '
+        'PROVED for all bags: best_hyp() returns the transcript at the first maximiser of vis_sc + lm_weight * lm_sc '
         '(the key total_scores()/posteriors()/confidence() use), so best_hyp, the bag confidence and scale-0 behaviour agree by '
         'construction. BOUNDED: the decoder with a history-dependent toy LM (state = whole prefix, pseudo-random per-symbol scores) '
         'is run on every matrix of a finite grid x scale x bonus x eos x initial state: each lm_sc equals the LM\'s own sum along the '
         'transcript, best_hyp maximises vis + scale*lm, confidence is its posterior, the returned state is its state, scale 0 '
-        'reproduces LM-free decoding. The LM bookkeeping invariant of the beam loop is not proved.')
+        'reproduces LM-free decoding.  The decoder proof covers init_h = None; a supplied initial state and the hand-over of the arrays to '
+        'build_boh (opaque) are covered by the bounded tier only.')
     core.setup_repo_path()
     try:
         from contracts import boh
@@ -144,6 +151,12 @@ def run(ctx):
         ctx.add_proof_reports(reps, clause='best_hyp maximises the LM-weighted total score')
     except ImportError:
         ctx.notes.append('contracts/boh.py not present: best_hyp clause bounded only')
+    from contracts import decoders as DC
+    reps = vrun.verify(DC.KEYS_LM, DC.CONTRACTS, root=core.repo_root(), both=thorough)
+    ctx.add_proof_reports(reps, clause='LM bookkeeping invariant of the beam loop: LM score = the LM\'s own score of the prefix, whatever the route')
+    ctx.trusted += ['ASSUMED contract of the LM object: initial_h / log_probs / advance_h0 / eos_scores act item-wise on a batch and are deterministic functions of state (and symbol); log_probs has one column per non-blank symbol',
+                    'ASSUMED contracts as in C02: multisort.top_k, the pre-selection callable, blank probability non-zero per frame',
+                    'decoder proved for init_h = None; build_boh is opaque in the decoder proof']
     import numpy as np
     from pero_ocr.decoding import decoders as D
     from pero_ocr.decoding.bag_of_hypotheses import BagOfHypotheses
